@@ -695,6 +695,11 @@ class BuiltinMixin:
                 st.assume(z3.ForAll([j], z3.Implies(z3.And(0 <= j, j < n), seqs.seq_elem(vs, j) != c)))
                 yield VTuple([vs, seqs.lit_str(""), seqs.lit_str("")]), st
                 return
+        if name == "isascii" and not args:
+            # str.isascii(): every code point below 128 (true for the empty string)
+            j = z3.Int(fresh_name("ia"))
+            yield V(BOOL, z3.ForAll([j], z3.Implies(z3.And(0 <= j, j < vs.length()), seqs.seq_elem(vs, j) < 128))), st
+            return
         raise Unsupported(f"str.{name} on a symbolic string")
 
     def join_measures(self, sep: VSeq, parts: VSeq, st):
